@@ -201,9 +201,16 @@ class C05Blocks(Oracle):
         self.tainted = ""
         self.ev_pos = 0
         self.tree = model.parse(plan["method"]) if plan.get("cfg", {}).get("wellformed") else None
+        self.int_active: set[str] = set()
+        self.discarded_tag = None
+        self._index()
+
+    def _index(self):
         self.by_name = {}
+        self.node_by_id = {}
         if self.tree:
             for n in self.tree.walk():
+                self.node_by_id[n.id] = n
                 if n.kind == "Block":
                     self.by_name.setdefault(n.arg, n)
 
@@ -213,10 +220,7 @@ class C05Blocks(Oracle):
     def after_edit(self, kind, expect, accepted, old, new):
         if accepted and self.tree is not None:
             self.tree = model.parse(new)
-            self.by_name = {}
-            for n in self.tree.walk():
-                if n.kind == "Block":
-                    self.by_name.setdefault(n.arg, n)
+            self._index()
 
     def after_tick(self, w, inc):
         for e in w.events[self.ev_pos:]:
@@ -224,7 +228,30 @@ class C05Blocks(Oracle):
                 self.stack = []
                 self.ended = set()
                 self.tainted = ""
+                self.int_active = set()
+            elif e[1] == "scope_activate" and e[3] in ("Watch", "Alarm"):
+                self.int_active.add(e[2])
+            elif e[1] == "scope_end" and e[3] in ("Watch", "Alarm"):
+                self.int_active.discard(e[2])
+            elif e[1] == "scope_start" and e[3] in ("Watch", "Alarm") and e[2] in self.int_active:
+                # the interrupt of this Watch/Alarm is registered again (by a re-armed Alarm around it) while its
+                # previous instance is still running its body: the engine drops the previous instance
+                self.int_active.discard(e[2])
+                owner = self.node_by_id.get(e[2]) if self.tree is not None else None
+                if owner is None:
+                    if self.stack:
+                        self.tainted = "@after_interrupt_reregistered"
+                else:
+                    inside = {c.arg for c in owner.walk() if c.kind == "Block"}
+                    dropped = [b for b in self.stack if b in inside]
+                    if dropped:
+                        self.v("C05", "C05.active_block_discarded_by_reregistered_interrupt", "Block",
+                               f"{e[3]} {e[2]} was registered again while its body was running inside block(s) {dropped}: "
+                               f"the block(s) never end and the Block tag keeps naming them")
+                        self.stack = [b for b in self.stack if b not in inside]
+                        self.discarded_tag = w.tag("Block")
             elif e[1] == "block_start" and e[2] != "root":
+                self.discarded_tag = None
                 name = e[2]
                 node = self.by_name.get(name)
                 if node is not None and "edit" not in w.ctx_flags:
@@ -256,6 +283,8 @@ class C05Blocks(Oracle):
             return      # a live edit re-runs instructions on this tree (recorded under C01): block events repeat
         tagv = w.tag("Block")
         want = self.stack[-1] if self.stack else None
+        if self.discarded_tag is not None and (tagv or None) == (self.discarded_tag or None):
+            return      # reported above: the tag keeps naming the discarded block until another block starts or ends
         if (tagv or None) != (want or None) and w.state not in ("Stopped", "Restarting"):
             self.v("C05", "C05.block_tag_mismatch" + self.tainted, "Block",
                    f"Block tag = {tagv!r}, active chain {self.stack}")
@@ -280,6 +309,13 @@ class C13Errors(Oracle):
     def after_tick(self, w, inc):
         evs = w.events[self.ev_pos:]
         errs = [e for e in evs if e[1] == "method_error"]
+        now_failed = set(w.method_state().failed_line_ids)
+        newly = now_failed - self.prev_failed
+        if newly and w.state in ("Running", "Holding") and "edit" not in w.ctx_flags and \
+                not any(e[1] in ("start", "stop") for e in evs):
+            self.v("C13", "C13.failed_instruction_did_not_pause", w.state,
+                   f"line(s) {sorted(newly)} failed in tick {w.tick_no} but System State is {w.state} "
+                   f"(Method Status {w.tag('Method Status')!r})")
         if errs:
             self.res.probe("method_error")
             if w.state not in ("Paused", "Stopped", "Restarting"):
@@ -612,7 +648,8 @@ class C04Interrupts(Oracle):
         self.watches = [n for n in self.tree.walk() if n.kind in ("Watch", "Alarm")]
         self.cond_true_ticks: dict[str, list[int]] = {n.id: [] for n in self.watches}
         self.registered: dict[str, int] = {}
-        self.forced: set[str] = set()
+        self.forced: dict[str, int] = {}        # node id -> number of accepted force requests
+        self.rejected_force = False
         self.cancelled_at: dict[str, int] = {}
         self.enabled = not any(op[0] in ("edit",) for op in plan["ops"]) and \
             not any(op[0] == "user" and op[1] in ("Restart",) for op in plan["ops"]) and \
@@ -628,15 +665,17 @@ class C04Interrupts(Oracle):
                     "state": w.state}
 
     def after_cancel_force(self, what, item, target_id, ok):
+        if what == "force" and not ok:
+            self.rejected_force = True     # a rejected request that still flags the node is C12's business
         if not ok or item is None:
             return
         name = item.name
         same = [n for n in self.watches if name.strip() == f"{n.kind}: {n.arg}".strip()]
-        for n in (same if len(same) == 1 else []):
+        for n in same:          # several instructions with the same text: the run-log item could be any of them
             if True:
                 if what == "force":
-                    self.forced.add(n.id)
-                else:
+                    self.forced[n.id] = self.forced.get(n.id, 0) + 1
+                elif len(same) == 1:
                     self.cancelled_at.setdefault(n.id, self.w.tick_no)
 
     def after_tick(self, w, inc):
@@ -674,15 +713,19 @@ class C04Interrupts(Oracle):
                 self.v("C04", "C04.watch_body_ran_twice", "Watch", f"Watch {n.arg!r} ({n.id}) activated in ticks {acts}")
             if c is None or c[0] not in self.PV | {"Run Time", "Block Time", "Run Counter"}:
                 continue
+            grants = self.forced.get(n.id, 0)
             for a in acts:
-                # the deciding evaluation happened in tick a or the one before (activation is entered the next tick)
                 trues = self.cond_true_ticks[n.id]
-                # the statement: "only after a tick in which its condition evaluated true" (any earlier tick)
-                ok = any(t <= a for t in trues) or n.id in self.forced
-                if not ok and not any(r[1] == "force" for r in w.requests):
+                # the statement: "only after a tick in which its condition evaluated true" (any earlier tick), or forced:
+                # each accepted force request permits one activation without the condition
+                ok = any(t <= a for t in trues)
+                if not ok and grants > 0:
+                    grants -= 1
+                    ok = True
+                if not ok and not self.rejected_force:
                     self.v("C04", "C04.body_ran_without_condition", n.kind,
                            f"{n.kind} {n.arg!r} activated in tick {a}; the harness saw the condition true only in ticks "
-                           f"{trues[:6]} (forced={n.id in self.forced})")
+                           f"{trues[:6]} (accepted force requests for it: {self.forced.get(n.id, 0)})")
                 else:
                     self.res.probe("activation_checked")
             ca = self.cancelled_at.get(n.id)
@@ -701,10 +744,65 @@ class C41Macros(Oracle):
         self.enabled = not any(op[0] in ("edit", "inject", "cancel", "force") for op in plan["ops"]) and \
             not any(op[0] == "user" and op[1] in ("Restart", "Stop") for op in plan["ops"])
 
+    def _recursion_check(self, w):
+        """A call that would make a macro call itself, directly or indirectly, fails instead of recursing."""
+        macros: dict[str, model.MNode] = {}
+        for n in self.tree.walk():
+            if n.kind == "Macro":
+                macros[n.arg] = n          # the harness's methods define each recursive macro once
+        edges = {name: {c.arg for c in mn.walk() if c.kind == "Call macro"} for name, mn in macros.items()}
+
+        def reaches(a, b, seen=None):
+            seen = seen or set()
+            for x in edges.get(a, ()):
+                if x == b or (x not in seen and reaches(x, b, seen | {x})):
+                    return True
+            return False
+        cyclic = {name for name in macros if reaches(name, name)}
+        if not cyclic:
+            return
+        self.res.probe("recursive_macro_methods")
+        n_calls = sum(1 for n in self.tree.walk() if n.kind == "Call macro")
+        count: dict[str, int] = {}
+        for e in w.effects:
+            if e[1] == "mark":
+                count[e[2]] = count.get(e[2], 0) + 1
+        def shape_of(name):
+            calls = [x for x in macros[name].walk() if x.kind == "Call macro"]
+            direct = [x for x in macros[name].children if x.kind == "Call macro"]
+            if calls and not direct:
+                return "nested"
+            if direct and direct[0].arg != name and not reaches(direct[0].arg, name):
+                return "not_first_call"
+            return "direct_child"
+        errors = [e for e in w.events if e[1] == "method_error"]
+        for name in cyclic:
+            marks = [c for c in macros[name].walk() if c.kind == "Mark"]
+            entered = any(count.get(c.arg, 0) > 0 for c in marks)
+            if entered and not errors and w.tick_no > 60 and not any(r[1] in ("edit", "inject") for r in w.requests):
+                self.v("C41", "C41.recursive_macro_call_did_not_fail", shape_of(name),
+                       f"macro {name} is on a call cycle and was entered, but no instruction failed in {w.tick_no} ticks "
+                       f"(effects {[e[2] for e in w.effects][:8]})")
+                return
+        for name in cyclic:
+            for c in macros[name].walk():
+                if c.kind == "Mark" and count.get(c.arg, 0) > n_calls + 1:
+                    shape = "nested" if any(a.kind in ("Block", "Watch", "Alarm") and a is not macros[name] for a in
+                                            next(x for x in macros[name].walk() if x.kind == "Call macro").ancestors()
+                                            if a is not macros[name] and a.kind != "root") else "direct_child"
+                    first_calls = [x for x in macros[name].children if x.kind == "Call macro"]
+                    if shape == "direct_child" and first_calls and not reaches(first_calls[0].arg, name) and first_calls[0].arg != name:
+                        shape = "not_first_call"
+                    self.v("C41", "C41.recursive_macro_call_not_rejected", shape,
+                           f"macro {name} is on a call cycle, yet its body line {c.text.strip()!r} ran {count[c.arg]} times "
+                           f"({n_calls} Call macro lines in the method): the call recursed instead of failing")
+                    return
+
     def at_end(self, w):
         for e in w.exceptions:
             if "RecursionError" in e[2]:
                 self.v("C41", "C41.recursion_error_escaped", "tick", e[2])
+        self._recursion_check(w)
         if not self.enabled:
             return
         # main-path macro calls in the fragment without interrupts: body tokens appear once per call, in order
@@ -717,7 +815,9 @@ class C41Macros(Oracle):
 
         def started(n):
             return any(s[0] in ("started", "completed") for s in recs.get(n.id, []))
-        for n in self.tree.children:
+        for n in self.tree.walk():          # document order = execution order in this interrupt-free fragment
+            if any(a.kind == "Macro" for a in n.ancestors()):
+                continue
             if n.kind == "Macro":
                 if started(n):
                     macros[n.arg] = n
@@ -738,7 +838,7 @@ class C41Macros(Oracle):
         got: dict[tuple, int] = {}
         for e in w.effects:
             got[(e[1], e[2])] = got.get((e[1], e[2]), 0) + 1
-        body_tokens = {c.token for m in self.tree.children if m.kind == "Macro" for c in m.walk() if c.token}
+        body_tokens = {c.token for m in self.tree.walk() if m.kind == "Macro" for c in m.walk() if c.token}
         outside = {n.token for n in self.tree.walk() if n.token and not any(a.kind == "Macro" for a in n.ancestors())}
         for tok in body_tokens - outside:
             # a token may belong to several definitions of one macro name; compare totals
@@ -839,6 +939,7 @@ class C14Inject(Oracle):
     def __init__(self, world, plan, res):
         super().__init__(world, plan, res)
         self.injected: list[tuple[int, list[str], bool]] = []   # (tick, mark tokens, accepted)
+        self.pcode_of: dict[tuple[int, str], str] = {}
         self.no_restart = not any(op[0] == "user" and op[1] in ("Restart", "Stop") for op in plan["ops"]) and \
             not any(re.match(r"^\s*([0-9.]+ )?(Restart|Stop)\b", c) for _, c in plan["method"])
         self.tick_state: dict[int, str] = {}
@@ -850,6 +951,8 @@ class C14Inject(Oracle):
         if kind == "inject":
             toks = re.findall(r"Mark: (i\d+)", msg.pcode)
             self.injected.append((self.w.tick_no, toks, accepted, self.w.state))
+            for t in toks:
+                self.pcode_of[(self.w.tick_no, t)] = msg.pcode
 
     def on_effect(self, e):
         tick, kind, tok, _ = e
@@ -870,9 +973,10 @@ class C14Inject(Oracle):
                 c = count.get(tok, 0)
                 if c > 1:
                     self.v("C14", "C14.injected_code_ran_twice", "Mark", f"injected Mark {tok} (tick {tick}) ran {c} times")
-                if c == 0 and accepted and st == "Running" and getattr(w, "quiescent", False) and \
-                        getattr(w, "running_ticks_after", {}).get(tick, 0) >= 3 * M_SLACK and w.state == "Running" \
-                        and not w.engine.has_error_state():
+                running_after = sum(1 for t, s2 in self.tick_state.items() if t > tick + 1 and s2 == "Running")
+                simple = not self.pcode_of.get((tick, tok), "").lstrip().startswith("Block")
+                if c == 0 and accepted and simple and running_after >= 3 * M_SLACK + 25 and w.state in ("Running", "Stopped") \
+                        and not any(e[1] == "method_error" for e in w.events) and "edit" not in w.ctx_flags:
                     self.v("C14", "C14.injected_code_never_ran", "Mark",
                            f"Mark {tok} injected at tick {tick} (state Running) never ran")
 
@@ -913,7 +1017,7 @@ class C12CancelForce(Oracle):
             return
         if ok:
             self.pending.append({"what": what, "base": base, "name": item.name, "tick": w.tick_no, "id": target_id,
-                                 "state_at": w.state,
+                                 "state_at": w.state, "flags_at": w.control(),
                                  "n_effects": len(w.effects), "cmd_events": len(w.plog.events)})
             self.res.probe(f"{what}_{base}")
 
@@ -925,8 +1029,13 @@ class C12CancelForce(Oracle):
                     bad = "Paused" if p["base"] == "Pause" else "Holding"
                     r, h, pa = w.control()
                     flag = pa if p["base"] == "Pause" else h
-                    if flag and not w.engine.has_error_state():
-                        kind = "C12.cancelled_timed_command_still_active" if p["state_at"] == bad else \
+                    # attributable only if this instruction is the one source of the state: it was entered once, by the
+                    # method, and the user never sent the same command in this run
+                    entered = [e for e in w.events if e[1] == "runstate" and e[2] == p["base"]]
+                    by_user = any(r[1] == "control" and r[2] == p["base"] for r in w.requests)
+                    if flag and not w.engine.has_error_state() and len(entered) == 1 and not by_user:
+                        in_effect = p["flags_at"][2] if p["base"] == "Pause" else p["flags_at"][1]
+                        kind = "C12.cancelled_timed_command_still_active" if in_effect else \
                             "C12.cancel_before_execution_ineffective"
                         self.v("C12", kind, p["base"],
                                f"{p['name']!r} cancelled in tick {p['tick']} but the run is still {bad} two ticks later")
